@@ -7,8 +7,8 @@ import ast
 from ..cfg import cfg_of
 from ..index import AnalysisError, function_stmts, parent, walk_no_nested
 from ..pipeline import check_pipelines
-from ..roles import list_element_args, schema_backend_classes, self_method
-from ..util import callee_last, calls_in, enclosing_stmt, kw, path_condition, show_condition, txt
+from ..roles import list_element_args, list_literal_of, schema_backend_classes, self_method
+from ..util import Expander, callee_last, calls_in, enclosing_stmt, kw, path_condition, show_condition, txt
 from .c18 import _own_verdict_reasons, _scope_of
 
 EXPLANATION = (
@@ -69,18 +69,19 @@ def r1_stages(ctx):
                 ctx.ob("R1", f, f"{f.short}: `{name} = {txt(call)[:60]}` forwards head/tail/sample/random_state", not probs,
                        "each option reaches the parameter of the same name" + (" (via **subsample_kwargs)" if splat else "") if not probs else "; ".join(probs))
             # the list literal rows
-            lit = None
-            for s in function_stmts(f):
-                if isinstance(s, ast.Assign) and txt(s.targets[0]) == lname and isinstance(s.value, (ast.List, ast.Tuple)):
-                    lit = s.value
-            shared_args = None
-            if lit is not None and not any(isinstance(e, ast.Tuple) for e in lit.elts):
-                # polars column: args tuple shared by every check
-                for s in function_stmts(f):
-                    if isinstance(s, ast.Assign) and txt(s.targets[0]) == "args" and isinstance(s.value, ast.Tuple):
-                        shared_args = list(s.value.elts)
+            lit = list_literal_of(f, loop)
             if lit is None:
                 raise AnalysisError(f"{f.qual}: {lname} literal not found")
+            shared_args = None
+            if not any(isinstance(e, ast.Tuple) for e in lit.elts):
+                # polars column: one argument tuple shared by every check, splatted into the call `check_fn(*args)`
+                ex = Expander(f.node)
+                tv = loop.target.id if isinstance(loop.target, ast.Name) else None
+                for c in calls_in(loop):
+                    if isinstance(c.func, ast.Name) and c.func.id == tv and c.args and isinstance(c.args[0], ast.Starred):
+                        v = ex.expand(c.args[0].value)
+                        if isinstance(v, ast.Tuple):
+                            shared_args = list(v.elts)
             for el in lit.elts:
                 fn = el.elts[0] if isinstance(el, ast.Tuple) else el
                 args = list_element_args(el) if isinstance(el, ast.Tuple) else shared_args
@@ -91,7 +92,10 @@ def r1_stages(ctx):
                 own, reasons = _own_verdict_reasons(ix, bc, target)
                 scope = _scope_of(target)
                 data_level = scope == "DATA" or not own or target.name == "run_checks"
-                on_sub = first in subs
+                a0 = Expander(f.node).expand(args[0])
+                on_sub = first in subs or (isinstance(a0, ast.Call) and callee_last(a0) == "subsample")
+                if on_sub and len(first) > 40:
+                    first = "self.subsample(...)"
                 if data_level:
                     ctx.ob("R1", f, f"{f.short}: data-level core check {txt(fn)} receives the subsample", on_sub,
                            f"first argument `{first}` is the subsample" if on_sub else
